@@ -96,9 +96,14 @@ def f_regex(a):
     from genlm.grammar.lark_interface import interegular_to_wfsa
     r, cs, L = a["re"], a["cs"], a["L"]
     pat = show(r)
+    charset = set(cs)
     with warnings.catch_warnings():
         warnings.simplefilter("ignore")
-        m = interegular_to_wfsa(pat, charset=set(cs))
+        for w in a.get("warm", ()):         # earlier conversions with the SAME character-set object
+            interegular_to_wfsa(show(w), charset=charset)
+        m = interegular_to_wfsa(pat, charset=charset)
+    if charset != set(cs):
+        raise AssertionError("interegular_to_wfsa changed the character set it was given")
     strs = [p for n in range(L + 1) for p in itertools.product(cs, repeat=n)]
     acc = [[tname(c) for c in s] for s in strs if m(s) > 0]
     re_acc = [[tname(c) for c in s] for s in strs if pyre.fullmatch(pat, "".join(s))]
